@@ -99,7 +99,7 @@ let () = iter_lines (fun line ->
       let m = mod_of_desc d in
       let good v = (match sf (pf v) with Some (v', []) -> v' = v | _ -> false) in
       let names = ["str_nul"; "str_nl"; "str_comment"; "str_len"; "str_bytes"; "distinct"; "fn_fields"; "fn_names"; "layout";
-                   "code_decodes"; "code_targets"; "code_boundaries"; "code_patches"; "code_f64"; "label_total"; "entry"] in
+                   "code_bytes"; "code_decodes"; "code_targets"; "code_boundaries"; "code_patches"; "code_f64"; "label_total"; "entry"] in
       let cs = wf_conjuncts table_list good m in
       let bad = List.filter_map (fun (nm, ok) -> if ok then None else Some nm) (List.combine names cs) in
       if (bad = []) <> wf_moduleb table_list good m then print_string "inconsistent\n"
